@@ -1214,6 +1214,25 @@ def rule_P4_sampler(ctx, rid='P4', rid6='P6'):
     _rule_shell_index(ctx, rid, add_samples, list_attrs | {'shell_n_sample'})
 
 
+def rule_P4_sampler_subset(ctx, tokens, why):
+    """The checkpoint-completeness obligations (P4 / P6) that concern the attributes a
+    property depends on: the whole rule is evaluated, obligations whose construct names one
+    of `tokens` are kept.  Obligations about other attributes belong to other properties."""
+    from .core import Ctx
+    sub = Ctx(ctx.prop, ctx.tier, ctx.program, ctx.seed)
+    rule_P4_sampler(sub)
+    for rid, text in sub.rules.items():
+        ctx.rule(rid, text + ' [restricted to: %s]' % why)
+    kept = 0
+    for o in sub.obligations:
+        if any(t in o.construct for t in tokens):
+            ctx.obligations.append(o)
+            ctx.instances[o.rule] = ctx.instances.get(o.rule, 0) + 1
+            kept += 1
+    ctx.notes += sub.notes
+    return kept
+
+
 def _is_optional_init(func, attr):
     """Every plain assignment `self.attr = ...` in func is control dependent on
     `self.attr is None`."""
